@@ -5,5 +5,5 @@ From Snap.Array Require Import ArrayDefs SyncModel.
 From Snap.Scan Require Import ScanModel PrehashModel.
 Extraction Language OCaml.
 Set Extraction Optimize.
-Extraction "../ocaml/C11/c11_ext.ml" ScanModel.scan ScanModel.sync_scan ScanModel.diff_scan ScanModel.diff_exit ScanModel.nocopy_load
+Extraction "../ocaml/C11/c11_ext.ml" ScanModel.scan ScanModel.sync_scan ScanModel.diff_scan ScanModel.diff_exit ScanModel.nocopy_load ScanModel.has_past_inodes
   PrehashModel.sync_run PrehashModel.sync_fails PrehashModel.hash_process SyncModel.save_normalise SyncModel.clear_past SyncModel.allocated_size.
